@@ -94,6 +94,14 @@ impl Bucket {
     }
 }
 
+#[cfg(lasso_verif)]
+impl Bucket {
+    /// Verification hook (read-only): `(address, capacity, used)` of this block
+    pub(crate) fn verif_raw(&self) -> (usize, usize, usize) {
+        (self.items.as_ptr() as usize, self.capacity.get(), self.index)
+    }
+}
+
 impl Drop for Bucket {
     fn drop(&mut self) {
         // Safety: We have exclusive access to the pointers since the contract of
